@@ -38,6 +38,9 @@ def run(ctx):
     d_completion_siblings(ctx)
     b_branch_indentation(ctx)
     c_start_probe(ctx)
+    c_no_module_state(ctx)
+    d_instance_uids(ctx)
+    b_else_binding(ctx)
 
 
 # ---------------------------------------------------------------------------------
@@ -658,3 +661,59 @@ def c_start_probe(ctx):
                   "the start probe cannot change the live state" if ok else
                   "the start probe slides the flow on the LIVE state and slide() executes `set` elements (%d context writes in slide): assignments before a flow's first `user`/event step run on every event "
                   "even if the flow never starts, and are published as ContextUpdate - another flow's `if $greeted` then takes the wrong branch" % len(effects), line=c.lineno)
+
+
+def c_no_module_state(ctx):
+    """`deciding the next step` is a function of (history, configuration): the Colang 1.0 interpreter modules keep no module-level container a function writes
+    and memoise no evaluation - a result remembered from one history would be replayed into another."""
+    from . import C08
+    C08.c_no_module_state(ctx, modules=["nemoguardrails/colang/v1_0/runtime/eval.py", FLOWS1, SLIDING, "nemoguardrails/colang/v1_0/runtime/utils.py"],
+                          rule="C14.c.no-module-state", floor=3,
+                          why_all="a value computed while replaying one history is reused for another history (e.g. `if $answer == 4` decided for the int 4 is replayed for the string \"4\")")
+
+
+def d_instance_uids(ctx):
+    """Flow instances are told apart by uid (`interrupted_by` points at the uid of the subflow instance a caller waits for): every FlowState gets a fresh id."""
+    t = ctx.tree.ast(FLOWS1)
+    cons = [c for c in ast.walk(t) if isinstance(c, ast.Call) and src(c.func) == "FlowState"]
+    ctx.floor("C14.d.instance-uid", FLOWS1, "FlowState constructions", len(cons), 2)
+    for c in cons:
+        uid = [k.value for k in c.keywords if k.arg == "uid"]
+        v = uid[0] if uid else None
+        if isinstance(v, ast.Name):
+            fn = c
+            while fn is not None and not isinstance(fn, (ast.FunctionDef, ast.AsyncFunctionDef)):
+                fn = getattr(fn, "_parent", None)
+            defs = [a for a in ast.walk(fn) if isinstance(a, ast.Assign) and src(a.targets[0]) == v.id] if fn else []
+            v = defs[0].value if len(defs) == 1 else v
+        ok = isinstance(v, ast.Call) and src(v.func) in ("new_uuid", "uuid.uuid4", "new_readable_uuid")
+        ctx.check("C14.d.instance-uid", FLOWS1, "FlowState(...)", "uid=%s" % (src(uid[0]) if uid else None), ok,
+                  "the instance gets a fresh uid" if ok else
+                  "the instance uid `%s` is derived, not fresh: two calls of the same subflow from one flow share a uid, the caller is resumed by the COMPLETED first instance while the second call still runs"
+                  % (src(uid[0]) if uid else None), line=c.lineno)
+
+
+def b_else_binding(ctx):
+    """An `else` belongs to the `if` whose KEYWORD stands at the same indentation.  The parser keeps the open ifs on a stack; on `else` it may pop an `if` only when the
+    else is indented less than that if's keyword - so the keyword indentation must be recorded and compared."""
+    t = ctx.tree.ast(CP1)
+    rec = False
+    for c in ast.walk(t):
+        if isinstance(c, ast.Call) and src(c.func) == "self.ifs.append" and c.args and isinstance(c.args[0], ast.Dict):
+            for k, v in zip(c.args[0].keys, c.args[0].values):
+                if isinstance(k, ast.Constant) and k.value == "keyword_indentation" and src(v) == "self.current_indentation":
+                    rec = True
+    ctx.check("C14.b.else-binding", CP1, "ColangParser._parse_if_branch", "keyword indentation recorded", rec,
+              "every open `if` records the indentation of its keyword" if rec else "the indentation of the `if` keyword is not recorded: an `else` cannot be matched with its `if` by position", line=1)
+    fn = None
+    for f in functions(t):
+        if f.name == "_check_ifs_and_branches":
+            fn = f
+    if fn is None:
+        raise AnalysisError("_check_ifs_and_branches not found", anchor=CP1 + "::_check_ifs_and_branches")
+    loops = [w for w in ast.walk(fn) if isinstance(w, ast.While) and any(isinstance(c, ast.Call) and src(c.func) == "self.ifs.pop" for c in ast.walk(w))]
+    ok = bool(loops) and all(any(isinstance(c, ast.Compare) and "keyword_indentation" in src(c) and "current_indentation" in src(c) for c in ast.walk(w.test)) and "else" in src(w.test) for w in loops)
+    ctx.check("C14.b.else-binding", CP1, "ColangParser._check_ifs_and_branches", "else pops by keyword indentation", ok,
+              "on `else`/`else if` an open `if` is closed only if the else is indented less than that if's keyword" if ok else
+              "the decision which open `if` an `else` closes does not compare the else's indentation with the if's keyword indentation: an outer `else` after a then-block ending in a nested `if` "
+              "binds to the NESTED if and runs under the inner condition", line=(loops[0].lineno if loops else fn.lineno))
